@@ -151,8 +151,27 @@ def handleExpr (mode tree toks : String) : String :=
       | _ => "reject"
     let lexOk := mode != "min" || eraseNl ts == Spec.print t ++ [{ k := .eof }]
     let spec := dumpStr t ++ (if lexOk then "" else ";lex")
-    let dev := if Spec.relChain t then "relational_chain" else "-"
-    model ++ " " ++ spec ++ " " ++ dev
+    model ++ " " ++ spec ++ " -"
+  | _, _ => "bad-request bad-request -"
+
+/-- noin <form> <tree> <srchex> <toks>: the expression stands in a for-header (allowIn = false).
+    form `init`: `for ( E ; ; ) ;`  (Expression NoIn);  form `var`: `for ( var v = E in z ) ;`  (AssignmentExpression NoIn,
+    the `in` that follows must be left for the for-in) -/
+def handleNoIn (form tree toks : String) : String :=
+  match readE (tree.splitOn ","), toks? toks with
+  | some (t, []), some ts =>
+    let pre : List Tok := if form = "var" then [Spec.tk .kFor, Spec.tk .lparen, Spec.tk .kVar, { k := .id "v" }, Spec.tk .assign]
+                          else [Spec.tk .kFor, Spec.tk .lparen]
+    let post : List Tok := if form = "var" then [Spec.tk .kIn, { k := .id "z" }, Spec.tk .rparen, Spec.tk .semi, { k := .eof }]
+                           else [Spec.tk .semi, Spec.tk .semi, Spec.tk .rparen, Spec.tk .semi, { k := .eof }]
+    let body := ts.drop pre.length
+    let res := if form = "var" then parseAssign (fuelFor ts) false body else parseExpression (fuelFor ts) false body
+    let model := match res with
+      | some (e, rest) => if eraseNl rest == post then dumpStr e else "reject"
+      | none => "reject"
+    let text := if form = "var" then Spec.pr 1 false t else Spec.pr 0 false t
+    let lexOk := eraseNl ts == pre ++ text ++ post
+    model ++ " " ++ dumpStr t ++ (if lexOk then "" else ";lex") ++ " -"
   | _, _ => "bad-request bad-request -"
 
 def flagStr (fs : List Bool) : String := String.ofList (fs.map fun b => if b then '1' else '0')
@@ -172,6 +191,7 @@ def handle (ws : List String) : String :=
   match ws with
   | ["expr", mode, tree, _src, toks] => handleExpr mode tree toks
   | ["asi", nlbits, stmts, _src, toks] => handleAsi nlbits stmts toks
+  | ["noin", form, tree, _src, toks] => handleNoIn form tree toks
   | "num" :: rest => Lit.handleNum rest
   | "str" :: rest => Lit.handleStr rest
   | _ => "bad-op bad-op -"
